@@ -2,7 +2,9 @@ package props
 
 import (
 	"encoding/json"
+	"fmt"
 	"sort"
+	"time"
 
 	"verif/core"
 )
@@ -73,4 +75,88 @@ func rawLines(lines [][]byte, owner []int, oi int) []json.RawMessage {
 		}
 	}
 	return out
+}
+
+// traceSet collects the concatenated trace of many runs (one "start" line per run).
+type traceSet struct {
+	lines [][]byte
+	owner []int // op index per line
+}
+
+// add appends one run: its start record and the events of package pkg ("" = all).
+func (t *traceSet) add(opIndex int, start interface{}, events []json.RawMessage, pkg string) int {
+	st, _ := json.Marshal(start)
+	t.lines = append(t.lines, st)
+	t.owner = append(t.owner, opIndex)
+	n := 0
+	for _, e := range events {
+		if pkg != "" {
+			var h struct {
+				P string `json:"p"`
+			}
+			json.Unmarshal(e, &h)
+			if h.P != pkg {
+				continue
+			}
+		}
+		t.lines = append(t.lines, e)
+		t.owner = append(t.owner, opIndex)
+		n++
+	}
+	return n
+}
+
+// validateTraces runs a trace acceptor over the concatenated runs. A rejected run becomes a
+// violation (with the run as replay) and is dropped so that the remaining runs are still checked.
+func validateTraces(r *core.Run, module, cfg, entry string, ops []core.Op, obs []core.Obs, lines [][]byte, owner []int) {
+	if len(lines) == 0 {
+		r.Machinery("no trace events recorded for %s (hooks missing?)", module)
+		return
+	}
+	for round := 0; round < 25 && len(lines) > 0; round++ {
+		tr, err := core.ValidateTrace(module, cfg, lines, false, 20*time.Minute)
+		if err != nil {
+			r.Machinery("trace validation %s: %v", module, err)
+			tr.TLC.Cleanup()
+			return
+		}
+		r.AddTLC(module, tr.TLC)
+		tr.TLC.Cleanup()
+		if tr.Accepted {
+			r.Traces += countStarts(owner)
+			return
+		}
+		idx := tr.Matched
+		if idx >= len(lines) {
+			idx = len(lines) - 1
+		}
+		if tr.InvViol != "" && idx > 0 {
+			idx-- // the invariant fails in the state reached by the last matched event
+		}
+		oi := owner[idx]
+		var evName struct {
+			E string `json:"e"`
+		}
+		json.Unmarshal(lines[idx], &evName)
+		what := fmt.Sprintf("recorded execution is not a behaviour of the specification %s: event %s not accepted", module, string(lines[idx]))
+		key := entry + ":trace-rejected@" + evName.E
+		if tr.InvViol != "" {
+			what = "invariant " + tr.InvViol + " of the specification violated by the recorded execution at event " + string(lines[idx])
+			key = entry + ":trace-invariant@" + tr.InvViol
+		}
+		var ob *core.Obs
+		if oi < len(obs) {
+			ob = &obs[oi]
+		}
+		r.Violate(key, what, replayOf(&ops[oi], ob, map[string]interface{}{"trace": rawLines(lines, owner, oi)}))
+		lo, hi := idx, idx
+		for lo > 0 && owner[lo-1] == oi {
+			lo--
+		}
+		for hi < len(lines) && owner[hi] == oi {
+			hi++
+		}
+		r.Traces += countStarts(owner[:lo])
+		lines, owner = lines[hi:], owner[hi:]
+	}
 }
